@@ -76,3 +76,85 @@ def _c14_precedence(rec):
     whose precedence is lower than the hole's context (`{{x}} * 2` with x = `a + b`) denotes another tree."""
     d = rec.get("detail") or {}
     return rec.get("kind") == "tree_differs_from_reference_substitution" and d.get("explained_by_textual_instantiation") is True
+
+
+# ----------------------------------------------------------------------------------------- shared helpers
+def _step(rec):
+    """(rule, before, after) of the step a behavioural violation is attributed to."""
+    d = rec.get("detail") or {}
+    rule = d.get("attributed_rule") or rec.get("rule")
+    before = d.get("step_before") or rec.get("before") or rec.get("input")
+    after = d.get("step_after") or d.get("after") or rec.get("after")
+    return rule, before, after
+
+
+def _parse(text):
+    try:
+        return ast.parse(text)
+    except (SyntaxError, ValueError, TypeError):
+        return None
+
+
+# ----------------------------------------------------------------------------------------- C15 (+ C01/C02/C17)
+@classifier("boolop-constant-operand-collapsed")
+def _boolop_constant_collapse(rec):
+    """simplify_boolean_expressions treats every and/or as if it stood in a boolean context with pure operands:
+    an `or` with a truthy constant operand becomes True, an `and` with a falsy one False, True/False operands are
+    dropped - the *value* (1 or x -> True) and the side effects of the other operands (t() or True -> True) are lost."""
+    rule, before, after = _step(rec)
+    if rule != "symbolic_math.simplify_boolean_expressions" or rec.get("kind") not in (
+            "folded_program_behaves_differently", "step_changes_behaviour", "program_behaves_differently", "formula_value_differs"):
+        return False
+    tree = _parse(before or "")
+    if tree is None:
+        return False
+    for node in ast.walk(tree):
+        if isinstance(node, ast.BoolOp) and any(_is_literal_expression(v) for v in node.values):
+            return True
+    return False
+
+
+_LITERAL_NODES = (ast.Constant, ast.UnaryOp, ast.BinOp, ast.Compare, ast.BoolOp, ast.Tuple, ast.List, ast.Set, ast.Dict, ast.IfExp,
+                  ast.operator, ast.unaryop, ast.cmpop, ast.boolop, ast.expr_context)
+
+
+_PURE_BUILTINS = {"abs", "all", "any", "ascii", "bin", "bool", "bytearray", "bytes", "chr", "complex", "dict", "divmod", "enumerate", "filter",
+                  "float", "format", "frozenset", "hex", "int", "iter", "len", "list", "map", "max", "min", "oct", "ord", "pow", "range", "repr",
+                  "reversed", "round", "set", "slice", "sorted", "str", "sum", "tuple", "zip"}
+
+
+def _is_literal_expression(node):
+    """Built from literals, operators, constant-receiver method calls and pure builtins only (no free names)."""
+    for n in ast.walk(node):
+        if isinstance(n, _LITERAL_NODES) or isinstance(n, (ast.Call, ast.Attribute)):
+            continue
+        if isinstance(n, ast.Name) and n.id in _PURE_BUILTINS:
+            continue
+        return False
+    return True
+
+
+@classifier("fold-set-iteration-order")
+def _fold_set_order(rec):
+    """A set of strings converted to a sequence at format time (list(set('abc'))) has the iteration order of the
+    formatting process' hash seed, not of the process that will run the program."""
+    if rec.get("kind") != "value_is_process_dependent":
+        return False
+    e = rec.get("input") or ""
+    tree = _parse(e)
+    if tree is None:
+        return False
+    has_set = any(isinstance(n, (ast.Set, ast.SetComp)) or (isinstance(n, ast.Call) and isinstance(n.func, ast.Name) and n.func.id in ("set", "frozenset"))
+                  for n in ast.walk(tree))
+    ordered = any(isinstance(n, ast.Call) and isinstance(n.func, ast.Name) and n.func.id in ("list", "tuple", "iter", "enumerate", "zip", "map", "filter", "str", "repr", "ascii", "format", "reversed", "bytes", "bytearray")
+                  for n in ast.walk(tree))
+    return has_set and ordered
+
+
+@classifier("sub-elif-clause-replaced-as-statement")
+def _c14_elif(rec):
+    """The If node of an `elif` clause spans from the `elif` keyword; sub() replaces that text by the template
+    verbatim, so `elif c: ...` becomes a new `if c: ...` statement (the rules skip such nodes, sub does not)."""
+    d = rec.get("detail") or {}
+    return rec.get("kind") == "tree_differs_from_reference_substitution" and any(
+        str(t).startswith("elif") for t in d.get("applied_texts") or [])
